@@ -98,7 +98,10 @@ func ruleR13a(c *Ctx, r *Report) {
 			for i := range db.Succs {
 				cut[Edge{From: db, Succ: i}] = true
 			}
-			v1 := cmpEdges(fn, func(v ssa.Value) bool { return loadsField(canon(v), modV2, "Stats", "Version") }, func(v ssa.Value) bool { k, ok := constInt(v); return ok && k == 1 }, "eq")
+			// stats.Version is r.Version (Stats{Version: r.Version, ...}); either spelling is the version test
+			v1 := cmpEdges(fn, func(v ssa.Value) bool {
+				return loadsField(canon(v), modV2, "Stats", "Version") || loadsField(canon(v), modV2, "Reader", "Version")
+			}, func(v ssa.Value) bool { k, ok := constInt(v); return ok && k == 1 }, "eq")
 			for _, e := range v1 {
 				cut[e] = true
 			}
